@@ -265,7 +265,7 @@ struct driver {
         for ( const tx_rec& x : r.txq )
         {
             t.ev( "AdvTx" ).f( "ch", x.ch ).f( "t_us", x.t ).f( "when_us", x.when ).f( "busy", x.busy );
-            t.fl( "pdu", x.pdu ).fl( "rsp", x.rsp );
+            t.fl( "pdu", x.pdu.begin(), x.pdu.begin() + std::min< std::size_t >( x.pdu.size(), 14 ) ).fl( "rsp", x.rsp.begin(), x.rsp.begin() + std::min< std::size_t >( x.rsp.size(), 8 ) );
             t.end();
         }
         r.txq.clear();
